@@ -5,6 +5,7 @@ pub mod c12;
 pub mod c13;
 pub mod c14;
 pub mod c15;
+pub mod c19;
 pub mod cfcase;
 pub mod c16;
 
@@ -21,6 +22,7 @@ pub fn run(ctx: &Ctx) -> i32 {
         "C14" => c14::run(ctx),
         "C15" => c15::run(ctx),
         "C16" => c16::run(ctx),
+        "C19" => c19::run(ctx),
         other => {
             eprintln!("unknown property {other}");
             2
@@ -56,6 +58,7 @@ pub fn replay(ctx: &Ctx, path: &Path) -> i32 {
         "C14" => c14::replay(ctx, &check, &tape),
         "C15" => c15::replay(ctx, &check, &tape),
         "C16" => c16::replay(ctx, &check, &tape),
+        "C19" => c19::replay(ctx, &check, &tape),
         other => {
             eprintln!("unknown property {other}");
             return 2;
